@@ -357,6 +357,8 @@ def nat_parallelize(h):
         if p.is_alive():
             p.kill()
         h.check(ok, PZ + '::fork', (N, n, pattern), 'every row once, selected ones processed once', note)
+        if note == 'timeout (hang)':
+            break       # one run that does not terminate decides; do not wait a minute for each remaining configuration
 
 
 ITEMS = [
